@@ -106,6 +106,29 @@ Theorem C01_spec_ok_sound : forall sk dk d impl,
 Proof. exact spec_ok_sound. Qed.
 Print Assumptions C01_spec_ok_sound.
 
+(* Inputs a handler is not supposed to look at have no influence - on what is relayed, on what counts as
+   well-formed, on the reference: the handler response for every kind but ERC20 / native (where it is rewrite 1),
+   the separate amount for every kind but Bitcoin, the event's destination for Bitcoin (taken from the payload).
+   The other inputs of HandleDeposit (message id text, timestamp, block number; the depositor's address never
+   reaches a handler) are not inputs of the model at all; the run varies them on the real code. *)
+Theorem C01_hr_ignored : forall sk dk d hr, sk <> SErc20 ->
+  relay sk dk (with_hr d hr) = relay sk dk d /\ wf sk dk (with_hr d hr) = wf sk dk d /\
+  spec_proposal sk dk (with_hr d hr) = spec_proposal sk dk d.
+Proof. exact hr_ignored. Qed.
+Print Assumptions C01_hr_ignored.
+
+Theorem C01_amount_ignored : forall sk dk d a, sk <> SBtc ->
+  relay sk dk (with_amount d a) = relay sk dk d /\ wf sk dk (with_amount d a) = wf sk dk d /\
+  spec_proposal sk dk (with_amount d a) = spec_proposal sk dk d.
+Proof. exact amount_ignored. Qed.
+Print Assumptions C01_amount_ignored.
+
+Theorem C01_btc_dst_ignored : forall dk d x,
+  relay SBtc dk (with_dst d x) = relay SBtc dk d /\ wf SBtc dk (with_dst d x) = wf SBtc dk d /\
+  spec_proposal SBtc dk (with_dst d x) = spec_proposal SBtc dk d.
+Proof. exact btc_dst_ignored. Qed.
+Print Assumptions C01_btc_dst_ignored.
+
 (* Shared byte library: the laws the encoders rest on. *)
 Theorem C01_be_to_N_be_bytes : forall n, be_to_N (be_bytes n) = n.
 Proof. exact be_to_N_be_bytes. Qed.
@@ -155,6 +178,12 @@ Proof. vm_compute. repeat split; eexists; repeat split. Qed.
 
 (* Outside wf (documented preconditions, not findings): a fee word above 2^256 - 100001 does not
    survive the 32-byte copy (fee = 2^256 - 100000: the sum 2^256 has 33 bytes, its first 32 are copied), and a BTC-bound amount of 2^64 * 10^10 or more wraps modulo 2^64. *)
+(* an ERC721 deposit without metadata whose handler answered with a token URI: well-formed, and the URI is not relayed *)
+Example C01_hr_ignored_nonvacuous :
+  let d := mkDep 1 2 78 ex_rid (u256 5 ++ u256 20 ++ repeat x02 20 ++ u256 0) (u256 32 ++ u256 3 ++ [x0a; x0b; x0c] ++ zeros 29) 0 in
+  wf SErc721 DEvm d = true /\ relay SErc721 DEvm d = Ok (mkProp 1 2 78 ex_rid None (DBytes (d_data d))).
+Proof. vm_compute. split; reflexivity. Qed.
+
 Example C01_fee_overflow_outside_wf :
   let d := mkDep 1 2 1 ex_rid (u256 5 ++ u256 20 ++ repeat x02 20 ++ u256 (2 ^ 256 - 100000) ++ [x0a]) [] 0 in
   wf SErc20 DEvm d = false /\
